@@ -17,7 +17,7 @@ RULE = ("obligations: Coq theorems + side conditions evaluated by vm_compute on 
         "3 blocking wait, 4 coroutine awaiter resumed by the resolver, 5 two threads on one reusable_storage_mtsafe, 6 counter under "
         "the coroutine mutex with 3 threads, 7 queue push/pop across threads, 8 generator next_sync with the generator continuing in a "
         "pool thread, 9 publisher publish/next/position/subscribe from 4 threads, 10 thread_pool + scheduler submit/cancel from several "
-        "threads, 11 four threads contending lock()/try_lock() on one coroutine mutex while the owner hands over / rebuilds its queue, 12 two threads calling one promise (value/value, value/drop) with winner count and payload check, 13 two publisher threads + two blocked subscribers, 14 has_value() waiter polling / blocking while another thread resolves); each case = (scenario, iteration count), every iteration uses fresh objects and checks value integrity; "
+        "threads, 11 four threads contending lock()/try_lock() on one coroutine mutex while the owner hands over / rebuilds its queue, 12 two threads calling one promise (value/value, value/drop) with winner count and payload check, 13 two publisher threads + two blocked subscribers, 14 has_value() waiter polling / blocking while another thread resolves, 15 a pool task calling stop() while the owner deletes the pool, 16 discard() of a pending future resolved by another thread, 17 publisher with a limited queue and heap-owning items read by a lagging subscriber); each case = (scenario, iteration count), every iteration uses fresh objects and checks value integrity; "
         "non-trivial = at least 5 iterations; distinct = distinct (scenario, iterations) list")
 SCOPE = ("release/acquire protocols P1 payload publication, P2 awaiter-node publication (future, signal, mutex instances), P3 mutex data hand-off, "
          "P4 reusable_storage_mtsafe, P5 generator _block, P6 promise _owner; lock skeletons of queue, limited_queue, thread_pool, scheduler, "
@@ -41,7 +41,7 @@ INFO = {}
 
 # which TSan scenarios exercise which obligation (used by the search step)
 OBLIGATION_SCENARIOS = {"p1": [1, 2, 3, 4], "p2_future": [4, 3], "p2_signal": [], "p2_mutex": [6], "p3": [6], "p4": [5], "p5": [8],
-                        "p6": [12, 1], "lockset": [13, 7, 9, 10], "touch": [6, 4, 11], "owner": [14, 11, 6, 5, 4, 8], "complete": [12, 1]}
+                        "p6": [12, 1], "lockset": [13, 17, 15, 7, 9, 10], "touch": [16, 6, 4, 11], "owner": [14, 16, 11, 6, 5, 4, 8], "complete": [12, 1]}
 
 
 def generate(ctx):
@@ -76,10 +76,10 @@ def gen(seed, tier):
     lo, hi = (5, 45) if tier == "quick" else (20, 200)
     cases = []
     # a small malformed stream, rejected identically by model and harness
-    cases.append(Case("tsan", "bad0", [[0, 5], [15, 5], [3]]))
-    for sid in range(1, 15):
+    cases.append(Case("tsan", "bad0", [[0, 5], [18, 5], [3]]))
+    for sid in range(1, 18):
         ns = rng.sample(range(lo, hi), min(per, hi - lo))
-        heavy = sid in (8, 9, 10, 11, 13)
+        heavy = sid in (8, 9, 10, 11, 13, 15, 17)
         for k, n in enumerate(ns):
             if heavy:
                 n = max(5, n // 4)
@@ -91,7 +91,7 @@ def gen(seed, tier):
 
 
 def nontrivial(case, model_obs):
-    return any(len(o) == 2 and 1 <= o[0] <= 14 and o[1] >= 5 for o in case.ops)
+    return any(len(o) == 2 and 1 <= o[0] <= 17 and o[1] >= 5 for o in case.ops)
 
 
 def signature(case, impl_obs, model_obs):
